@@ -83,17 +83,23 @@ class Distortion:
                                      wavelength=wavelength)
             yr = self.optic.surface_group.y[-1, :]
 
-            const = yr[0] / (np.tan(1e-10 *
-                                    np.radians(self.optic.fields.max_field)))
-
-            if self.distortion_type == 'f-tan':
-                yp = const * np.tan(Hy *
-                                    np.radians(self.optic.fields.max_field))
-            elif self.distortion_type == 'f-theta':
-                yp = const * Hy * np.radians(self.optic.fields.max_field)
-            else:
+            if self.distortion_type not in ('f-tan', 'f-theta'):
                 raise ValueError('''Distortion type must be "f-tan" or
                                  "f-theta"''')
+
+            if self.optic.field_type == 'object_height':
+                # fields are object heights: the paraxial image height is
+                # proportional to the height itself (no angle involved)
+                yp = yr[0] / 1e-10 * Hy
+            else:
+                const = yr[0] / (np.tan(1e-10 *
+                                        np.radians(self.optic.fields.max_field)))
+
+                if self.distortion_type == 'f-tan':
+                    yp = const * np.tan(Hy *
+                                        np.radians(self.optic.fields.max_field))
+                else:
+                    yp = const * Hy * np.radians(self.optic.fields.max_field)
 
             data.append(100 * (yr - yp) / yp)
 
